@@ -168,7 +168,9 @@ pub fn run(rep: &Report) -> i32 {
     rep.sample(1, || json!({"part": "a", "type": types[types.len() / 2].render()}));
     // (b) values
     let vtypes: Vec<Ty> = {
-        let mut v: Vec<Ty> = types.iter().filter(|t| gen::count_vals(t) > 0).cloned().collect();
+        // (the large types are checked as types only: their value sets would need gigabytes)
+        let large: BTreeSet<Ty> = large_types().into_iter().collect();
+        let mut v: Vec<Ty> = types.iter().filter(|t| gen::count_vals(t) > 0 && !large.contains(*t)).cloned().collect();
         let stride = if quick { 9 } else { 2 };
         let mut keep: Vec<Ty> = v.iter().step_by(stride).cloned().collect();
         // lists at every length for bounds <= 64 (thorough 512), arrays at every size 0..17
